@@ -2,6 +2,7 @@ package astutil
 
 import (
 	"errors"
+	"fmt"
 
 	"github.com/mattn/anko/ast"
 	zz "github.com/mattn/anko/zzverif"
@@ -277,4 +278,70 @@ func ZZ_C17_walk_pairs() {
 			zz.Assert(pc >= 1 && pat < at, "C17.pairs.parent-before-child/"+id)
 		}
 	}
+}
+
+// ZZ_C17_walk_deep: depth is not a reason to stop.  Trees nested c-1, c, c+1 and
+// 2c+1 levels deep for every integer constant c written in the walker's own
+// source (extracted on every run; 40 and 700 are always tried) - a left-deep
+// operator chain as the parser builds for `1 + 1 + ...`, nested list literals,
+// nested if blocks: every node is presented, Walk returns nil, and an error the
+// callback returns for the innermost node comes back as it is.
+func ZZ_C17_walk_deep() {
+	depths := []int{40, 700}
+	for _, c := range zzCodeConsts {
+		for _, d := range []int{c - 1, c, c + 1, 2*c + 1} {
+			if d > 3 && d <= 5000 {
+				depths = append(depths, d)
+			}
+		}
+	}
+	d := depths[zz.Choose(len(depths))]
+	zz.CallDepth(int64(8*d + 200))
+	zz.Budget(400000000)
+	shape := zz.Choose(3)
+	inner := &ast.IdentExpr{Lit: "innermost"}
+	var root ast.Stmt
+	nodes := 0
+	switch shape {
+	case 0:
+		var e ast.Expr = inner
+		for i := 0; i < d; i++ {
+			e = &ast.OpExpr{Op: &ast.AddOperator{LHS: e, Operator: "+", RHS: &ast.IdentExpr{Lit: "r"}}}
+		}
+		root = &ast.ExprStmt{Expr: e}
+		nodes = 2 + 3*d
+	case 1:
+		var e ast.Expr = inner
+		for i := 0; i < d; i++ {
+			e = &ast.ArrayExpr{Exprs: []ast.Expr{e}}
+		}
+		root = &ast.ExprStmt{Expr: e}
+		nodes = 2 + d
+	case 2:
+		var s ast.Stmt = &ast.ExprStmt{Expr: inner}
+		for i := 0; i < d; i++ {
+			s = &ast.IfStmt{If: &ast.IdentExpr{Lit: "c"}, Then: s}
+		}
+		root = s
+		nodes = 2 + 2*d
+	}
+	id := []string{"operator-chain", "nested-lists", "nested-ifs"}[shape]
+	count, sawInner := 0, false
+	err := Walk(root, func(x interface{}) error {
+		count++
+		if x == interface{}(inner) {
+			sawInner = true
+		}
+		return nil
+	})
+	zz.Assertf(err == nil, "C17.deep.walk-returns-no-error-of-its-own/"+id, fmt.Sprintf("depth %d", d))
+	zz.Assertf(sawInner && count == nodes, "C17.deep.every-node-presented/"+id, fmt.Sprintf("depth %d: %d of %d nodes", d, count, nodes))
+	stop := errors.New("stop")
+	err = Walk(root, func(x interface{}) error {
+		if x == interface{}(inner) {
+			return stop
+		}
+		return nil
+	})
+	zz.Assertf(err == stop, "C17.deep.callback-error-from-the-innermost-node-returned/"+id, fmt.Sprintf("depth %d", d))
 }
